@@ -141,7 +141,7 @@ func (g *gen) build() {
 	rng, r := g.rng, g.r
 	smallLens := []int{0, 1, 2, 3, 17, 100, 255, 256, 511, 512, 513, 1000}
 	// A. small bodies x framings x modes x segmentations
-	for i, n := 0, r.Scale(500, 6000); i < n; i++ {
+	for i, n := 0, r.Scale(380, 6000); i < n; i++ {
 		a := genAresp(rng, hk.Pick(rng, smallLens), rng.Intn(9), i%5 == 0)
 		g.h1(a, g.pickFraming(a), "GET", hk.Pick(rng, modes), hk.Pick(rng, segKinds), rng.Chance(30))
 	}
@@ -202,7 +202,7 @@ func (g *gen) build() {
 		g.h1(a, o, method, hk.Pick(rng, modes), hk.Pick(rng, segKinds), false)
 	}
 	// E. many / long header fields
-	for i, n := 0, r.Scale(80, 800); i < n; i++ {
+	for i, n := 0, r.Scale(50, 800); i < n; i++ {
 		// long values (also longer than the 4096-byte bufio buffer); the checker evaluates the linear-time
 		// copy of the reader (Model/H1Fast.v, proved equal to the original)
 		a := genAresp(rng, hk.Pick(rng, smallLens), rng.Range(10, 30), true)
@@ -314,7 +314,7 @@ func (g *gen) build() {
 	// M. round 3: HTTP/1.1 responses CUT at a particular point (the peer closes after k bytes): in the last-chunk
 	//    line, between it and the trailer section, inside the trailer section, inside the final CRLF, inside the
 	//    body.  A cut response must never be delivered as a complete one.
-	for i, n := 0, r.Scale(14, 140); i < n; i++ {
+	for i, n := 0, r.Scale(10, 140); i < n; i++ {
 		a := genAresp(rng, hk.Pick(rng, []int{0, 1, 17, 100}), rng.Intn(3), false)
 		for !bodyAllowed(a.Code) || a.Code >= 300 && a.Code < 400 {
 			a = genAresp(rng, hk.Pick(rng, []int{0, 1, 17, 100}), rng.Intn(3), false)
@@ -358,7 +358,7 @@ func (g *gen) build() {
 		g.files = append(g.files, genFileScenario(rng, i, filepath.Join(r.OutDir, "dl")))
 	}
 	// I. Response API cells (round 2), on all three protocols
-	for i, n := 0, r.Scale(240, 3000); i < n; i++ {
+	for i, n := 0, r.Scale(180, 3000); i < n; i++ {
 		a := g.muxAresp(hk.Pick(rng, []int{0, 1, 17, 100, 255, 600}), rng.Intn(4))
 		a.Trailers, a.Interim = nil, nil
 		if rng.Chance(85) {
